@@ -54,11 +54,13 @@ CHECKS["C05"] = dict(
     claim=("All ordered (destination, source) pairs of equal-extent view states of two same-shaped roots (E1 state sets, depth 2; thorough adds the larger shapes and lifts the per-class cap) x 14 "
            "assignment forms are executed on the real views; the oracle compares the WHOLE destination and source buffers including guards with the model-computed expectation, so a write "
            "outside the view, a wrong order, a modified source or a rebound view is visible. Complete enumeration within the bound."),
-    jobs=lambda tier: ranks_jobs("assignmc", "san", tier, shards_thorough=4),
+    jobs=lambda tier: ranks_jobs("assignmc", "san", tier, shards_thorough=4) + [Job("movemc", cfg="san", args=["--tier=" + tier])],
     rule=("state sets from the E1 search (C01 alphabet, depth 2) on array_ref roots over guard buffers; pairs grouped by (rank, extents); forms: dst=src, dst=std::move(src), dst=+src, "
           "dst=array<short>, dst=array<short>(), dst.elements()=src.elements(), =std::move(src).elements(), dst={initializer list}, dst=std::vector (1-D), dst.fill(x), dst.swap(src), "
           "swap(dst,src), std::move(dst)=src, dst=src.element_moved(); expectation computed from the model's index->offset maps in canonical order. distinct_nontrivial = pairs whose "
-          "destination has >= 2 elements; evaluations = (pair, form) executions."),
+          "destination has >= 2 elements; evaluations = (pair, form) executions. Move clause (harness movemc): the same pair enumeration over an element type with an observable moved-from state and 7 forms: "
+          "plain and rvalue-view assignment must leave the source untouched (views are reference-like; sub-view expressions are always temporaries), dst=src.element_moved(), dst.elements()=src.element_moved().elements() and "
+          "array(src.element_moved()) must move from exactly the viewed source elements, std::copy over the iterators of a moved view may move or copy but must not touch anything else."),
     assumptions=["destination and source live in different roots (disjoint elements, as the property requires)", "forms that materialise an owning temporary are applied only to sources without an empty dimension (owning arrays collapse leading sizes)",
                  "reference model engine/view_model.hpp", "g++ 12 -O0 ASan+UBSan, assertions enabled"],
 )
@@ -70,6 +72,8 @@ def hist_jobs(prop, tier, cfg="san"):
         for e in (0, 1):
             depth = {"quick": {1: 3, 2: 3, 3: 3, 4: 3}, "thorough": {1: 5, 2: 4, 3: 4, 4: 4}}[tier][d]
             jobs.append(Job("histmc", cfg=cfg, defs=["-DHM_D=%d" % d, "-DHM_ELEM=%d" % e], args=["--tier=" + tier, "--prop=" + prop, "--depth=%d" % depth]))
+    for d in ((2,) if tier == "quick" else (1, 2, 3)):   # third element kind: non-trivial default constructor, trivial destructor
+        jobs.append(Job("histmc", cfg=cfg, defs=["-DHM_D=%d" % d, "-DHM_ELEM=2"], args=["--tier=" + tier, "--prop=" + prop, "--depth=%d" % (3 if tier == "quick" else 4)]))
     jobs.append(Job("zeromc", cfg=cfg, args=["--tier=" + tier, "--prop=" + prop]))   # dimensionality 0
     return jobs
 
